@@ -1338,6 +1338,73 @@ def rule_blocks(rep, inst, R="C03.blocks"):
 
 
 # ---------------------------------------------------------------------------------------------------------------------
+# C03.cover - whole-buffer loops visit every block exactly once
+def rule_cover(rep, inst, R="C03.cover"):
+    d = inst.d
+    COUNT = (("call", ("mem", ("this",), "block_count")), ("call", ("mem", ("mem", ("this",), "m_buffer"), "size")))
+    for cname, kind, fn in inst.fns:
+        if cname != "xdynamic_bitset_base" or fn.get("name") in ("operator<<=", "operator>>=", "count"):
+            continue
+        loops = [n for n in ir.walk_expr(fn) if n.get("kind") == "ForStmt"]
+        if not loops:
+            continue
+        lab = label(cname, kind, fn, inst)
+        linit, _ = locals_init(fn)
+        names = {n.get("name"): n for n in ir.walk_expr(fn) if n.get("kind") == "VarDecl"}
+        for loop in loops:
+            raw = loop.get("inner", [])
+            init, cond, inc = raw[0], raw[2], raw[3]
+            vds = [c for c in ir.kids(init) if c.get("kind") == "VarDecl"] if isinstance(init, dict) and init.get("kind") else []
+            if len(vds) != 1:
+                continue
+            v = vds[0].get("name")
+            uses = [n for n in ir.walk_expr(raw[4]) if n.get("kind") in ("CXXOperatorCallExpr", "ArraySubscriptExpr")
+                    and ir.sx(n)[0] == "index" and ir.sx(n)[1] == ("mem", ("this",), "m_buffer") and ir.sx(n)[2] == ("ref", v)]
+            if not uses:
+                continue
+            c = ir.sx(cond) if isinstance(cond, dict) and cond.get("kind") else None
+            it = ir.sx(inc) if isinstance(inc, dict) and inc.get("kind") else None
+            start = ir.sx(ir.ekids(vds[0])[-1]) if ir.ekids(vds[0]) else None
+            cons = "loop `%s`" % d.text(loop).split("{")[0].strip()[:60]
+            if c is None or it is None or c[0] != "bin" or c[2] != ("ref", v) or it[0] != "un" or it[1] not in ("++", "post++") or c[1] not in ("<", "!="):
+                rep.inconclusive(R, lab, cons, where=d.where(loop), detail="not an upward counting loop over the block index")
+                continue
+            bound = c[3]
+            cases = [(None, bound)]
+            if bound[0] == "ref" and bound[1] in names and names[bound[1]].get("id") in linit:
+                b2 = ir.sx(linit[names[bound[1]].get("id")])
+                if b2[0] == "cond":
+                    cases = [(("T", b2[1]), b2[2]), (("F", b2[1]), b2[3])]
+                else:
+                    cases = [(None, b2)]
+            ok = start in (("lit", "0"), ("cast", "NoOp", "unsigned long", ("lit", "0"))) or ir.show(start) in ("0", "(unsigned long)0")
+            det = ""
+            if not ok:
+                det = "starts at `%s`, not at block 0" % ir.show(start)
+            for tag, b in cases:
+                if not ok:
+                    break
+                if b in COUNT:
+                    continue
+                if tag is not None and b == ("bin", "-", COUNT[0], ("lit", "1")) or (tag is not None and b[0] == "bin" and b[1] == "-" and b[2] in COUNT and b[3] == ("lit", "1")):
+                    # the last block is left to a separate test: it must exist under the same condition (extra bits != 0) and use back() / [count-1]
+                    polarity = tag[0] == "T"
+                    ct = tag[1]
+                    extra = ct[0] == "bin" and ct[1] in ("!=", ">") and ct[3] == ("lit", "0")
+                    tail = [n for n in ir.walk_expr(fn) if n.get("kind") == "CXXMemberCallExpr" and ir.sx(n) == ("call", ("mem", ("mem", ("this",), "m_buffer"), "back"))]
+                    if not (extra and polarity and tail):
+                        ok = False
+                        det = "stops one block early (`%s`) without a separate test of the last block under the same condition" % ir.show(b)
+                    continue
+                ok = False
+                det = "runs up to `%s`, expected block_count()" % ir.show(b)
+            if ok:
+                rep.holds(R, lab, cons, where=d.where(loop), detail="blocks 0 .. block_count()-1")
+            else:
+                rep.violates(R, lab, cons, where=d.where(loop), detail="the loop over the block buffer %s: some block is never examined/updated" % det)
+
+
+# ---------------------------------------------------------------------------------------------------------------------
 # C03.grow
 def rule_grow(rep, inst, R="C03.grow"):
     d = inst.d
@@ -1516,6 +1583,8 @@ def run(tier):
     rep.rule("C03.empty", "front()/back()/[0]/[count-1] on the block buffer is dominated by a fact that implies size() != 0")
     rep.rule("C03.blocks", "wherever a member sets the size it brings the buffer to compute_block_count/integer_ceil of that same size")
     rep.rule("C03.grow", "resize(n, true) that grows ORs all-ones << old extra bits into the old last block, read before size and buffer change")
+    rep.rule("C03.cover", "every loop of a query or blockwise operator that subscripts the block buffer with its loop variable runs from block 0 to block_count() "
+                          "(all(): to the last full block, with the partial last block tested separately under the same condition)")
     rep.rule("C03.cmp", "no comparison involving a block value is always true/false because of integer promotion of a narrow block type")
     blocks = BLOCKS[tier]
     d = cj.dump(driver(blocks), "xtl::")
@@ -1534,5 +1603,6 @@ def run(tier):
         rule_empty(rep, inst)
         rule_blocks(rep, inst)
         rule_grow(rep, inst)
+        rule_cover(rep, inst)
         rule_cmp(rep, inst)
     return rep
